@@ -424,3 +424,36 @@ def convex_hull_ccw(points):
             upper.pop()
         upper.append(p)
     return lower[:-1] + upper[:-1]
+
+
+# ------------------------------------------------------------------ plain float Cox-de Boor (for fitting checks, where
+# parameters and knots are arbitrary floats and exact rationals would be needlessly heavy)
+def fspan(p, U, n, u):
+    if u >= U[n]:
+        j = n - 1
+        while U[j] == U[j + 1]:
+            j -= 1
+        return j
+    for j in range(p, n):
+        if U[j] <= u < U[j + 1]:
+            return j
+    return p
+
+
+def fbasis_all(p, U, n, u):
+    """[N_0(u) .. N_{n-1}(u)] by the recursive definition evaluated bottom-up in floats (0/0 := 0)."""
+    j = fspan(p, U, n, u)
+    m = len(U) - 1
+    N = [0.0] * m
+    N[j] = 1.0
+    for d in range(1, p + 1):
+        M = [0.0] * (m - d)
+        for i in range(m - d):
+            t = 0.0
+            if N[i] != 0.0 and U[i + d] != U[i]:
+                t += (u - U[i]) / (U[i + d] - U[i]) * N[i]
+            if N[i + 1] != 0.0 and U[i + d + 1] != U[i + 1]:
+                t += (U[i + d + 1] - u) / (U[i + d + 1] - U[i + 1]) * N[i + 1]
+            M[i] = t
+        N = M
+    return N[:n]
